@@ -8,6 +8,7 @@ import (
 	"go/parser"
 	"go/token"
 	"go/types"
+	"os"
 	"regexp"
 	"sort"
 	"strings"
@@ -24,6 +25,8 @@ type Unit struct {
 	Splits  [][]Term // extra hypotheses per split instance (each instance: list of equalities)
 	SplitNm []string
 	Obligs  []*Oblig
+	Suffix  string
+	NObl    int
 	Carve   map[string]Term // known-finding carve-out source -> term over the unit's entry state
 }
 
@@ -36,7 +39,7 @@ type unitEntry struct {
 
 func (fr *frame) specEnv(st *State) *SpecEnv {
 	e := fr.e
-	ue := e.prog.curEntry
+	ue := e.entry
 	env := &SpecEnv{e: e, pkg: fr.fi.Fn.Pkg.Pkg, names: st.names, cells: st.cells, old: ue.cells, params: ue.params}
 	if len(e.curFn) > 1 {
 		// inside an inlined callee: its own parameters are the SSA params (in names)
@@ -53,15 +56,130 @@ func (fr *frame) specEnv(st *State) *SpecEnv {
 	return env
 }
 
-func (fr *frame) entryCells() map[string]Term { return fr.e.prog.curEntry.cells }
+func (fr *frame) entryCells() map[string]Term { return fr.e.entry.cells }
 
-func (p *Program) verifyUnit(ct *Contract) (u *Unit) {
-	u = &Unit{Name: ct.Pkg + "." + ct.Key, Ct: ct, Ctx: newCtx()}
+// unitTasks: the instances of a contract.  `split` clauses over parameters and memory
+// locations are instantiated by substitution (one symbolic execution per value, so that
+// literal indices fold); other split expressions become case-split hypotheses inside each
+// instance.  `split ... for l1, l2` restricts the instances to the clauses l1, l2; all other
+// obligations are discharged once on the unsplit (fully symbolic) unit.
+func (p *Program) unitTasks(ct *Contract) []Task {
+	pnames := map[string]bool{}
+	if ct.IsLemma {
+		for _, prm := range ct.Params {
+			pnames[prm.Name] = true
+		}
+	} else if ct.Fn != nil {
+		for _, prm := range ct.Fn.Params {
+			pnames[prm.Name()] = true
+		}
+	}
+	var psplits []Split
+	var forLabels []string
+	for _, sp := range ct.Splits {
+		if pnames[sp.Var] || isLocationExpr(sp.Var) {
+			psplits = append(psplits, sp)
+			forLabels = append(forLabels, sp.For...)
+		}
+	}
+	if len(psplits) == 0 {
+		return []Task{{Ct: ct}}
+	}
+	type inst struct {
+		sub map[string]int64
+		suf string
+	}
+	insts := []inst{{map[string]int64{}, ""}}
+	for _, sp := range psplits {
+		var next []inst
+		for _, in := range insts {
+			for _, k := range sp.Vals {
+				m := map[string]int64{}
+				for a, b := range in.sub {
+					m[a] = b
+				}
+				m[sp.Var] = int64(k)
+				next = append(next, inst{m, fmt.Sprintf("%s[%s=%d]", in.suf, sp.Var, k)})
+			}
+		}
+		insts = next
+	}
+	var out []Task
+	if len(forLabels) > 0 {
+		out = append(out, Task{Ct: ct, Drop: forLabels})
+	}
+	filter := os.Getenv("GOVC_INST")
+	for _, in := range insts {
+		if filter != "" && !strings.Contains(in.suf, filter) {
+			continue
+		}
+		t := Task{Ct: ct, Subst: in.sub, Suffix: in.suf}
+		if len(forLabels) > 0 {
+			t.Keep = forLabels
+		}
+		out = append(out, t)
+	}
+	return out
+}
+
+// isLocationExpr: p.f, p.f[i], ... (a memory location whose entry value can be substituted)
+func isLocationExpr(src string) bool {
+	x, err := parseSpecExpr(src)
+	if err != nil {
+		return false
+	}
+	switch x.(type) {
+	case *ast.SelectorExpr, *ast.IndexExpr:
+		return true
+	}
+	return false
+}
+
+// applyStateSubst writes the literal values of location splits into the entry state
+func (p *Program) applyStateSubst(e *Exec, env0 *SpecEnv, entry map[string]Term) {
+	var keys []string
+	for k := range e.subst {
+		if isLocationExpr(k) {
+			keys = append(keys, k)
+		}
+	}
+	sort.Strings(keys)
+	for _, k := range keys {
+		x, _ := parseSpecExpr(k)
+		av := env0.addrExpr(x)
+		t := typeAt(av.Addr.Typ, av.Addr.Path)
+		srt := scalarSort(t)
+		if srt == nil || srt.K != SBV {
+			e.fail("split location %s is not an integer cell", k)
+		}
+		e.c.storeAt(entry, av.Addr, scalar(t, bvLitI(srt.W, e.subst[k])))
+	}
+}
+
+func (p *Program) verifyUnit(ct *Contract, subst map[string]int64, suffix string) (u *Unit) {
+	u = &Unit{Name: ct.Pkg + "." + ct.Key, Ct: ct, Ctx: newCtx(), Suffix: suffix}
 	c := u.Ctx
 	c.preamble = append(c.preamble, p.specLib)
-	p.curRefs = nil
+	c.groundFn = func(key string) (interface{}, bool) {
+		d, ok := p.groundLeaf(key)
+		if ok {
+			parts := strings.SplitN(key[2:], ".", 3)
+			p.mu.Lock()
+			p.usedGround[parts[0]+"."+parts[1]] = true
+			p.mu.Unlock()
+		}
+		return d, ok
+	}
+	c.ufGlobals = func(key string) bool {
+		parts := strings.SplitN(key[2:], ".", 3)
+		g := parts[0] + "." + parts[1]
+		return p.cs.Frozen[g] && !p.cs.Grounds[g]
+	}
 	e := &Exec{c: c, prog: p, unit: u.Name, props: ct.Props, trusted: map[string]bool{}, kindCnt: map[string]int{},
-		safety: true, nilcheck: ct.NilCheck, ghost: map[string]Val{}}
+		safety: true, nilcheck: ct.NilCheck, ghost: map[string]Val{}, reveal: map[string]bool{}}
+	for _, r := range ct.Reveal {
+		e.reveal[r] = true
+	}
 	defer func() {
 		if r := recover(); r != nil {
 			if us, ok := r.(unsupported); ok {
@@ -75,7 +193,13 @@ func (p *Program) verifyUnit(ct *Contract) (u *Unit) {
 		}
 		sort.Strings(u.Trusted)
 		u.Obligs = c.obligs
+		if suffix != "" {
+			for _, o := range u.Obligs {
+				o.Name += suffix
+			}
+		}
 	}()
+	e.subst = subst
 	if ct.IsLemma {
 		p.verifyLemma(e, ct, u)
 		return
@@ -90,8 +214,11 @@ func (p *Program) verifyUnit(ct *Contract) (u *Unit) {
 	params := map[string]Val{}
 	for _, prm := range fn.Params {
 		v := c.freshVal(prm.Type(), "p_"+prm.Name())
+		if k, ok := subst[prm.Name()]; ok {
+			v = scalar(prm.Type(), bvLitI(scalarSort(prm.Type()).W, k))
+		}
 		if _, ok := prm.Type().Underlying().(*types.Pointer); ok {
-			p.curRefs = append(p.curRefs, v.T())
+			e.refs = append(e.refs, v.T())
 			if !ct.NilCheck {
 				c.assume(c.not(c.eq(v.T(), tNil)), "pointer parameter non-nil")
 			}
@@ -104,8 +231,9 @@ func (p *Program) verifyUnit(ct *Contract) (u *Unit) {
 		params[prm.Name()] = v
 	}
 	entry := map[string]Term{}
-	p.curEntry = &unitEntry{params: params, cells: entry, pkg: fn.Pkg.Pkg}
+	e.entry = &unitEntry{params: params, cells: entry, pkg: fn.Pkg.Pkg}
 	env0 := &SpecEnv{e: e, pkg: fn.Pkg.Pkg, params: params, cells: entry, old: entry}
+	p.applyStateSubst(e, env0, entry)
 	// ghost variables
 	for _, g := range ct.Ghosts {
 		t := env0.lookupType(g.Typ)
@@ -122,6 +250,10 @@ func (p *Program) verifyUnit(ct *Contract) (u *Unit) {
 	}
 	// vacuity: the precondition must be satisfiable
 	c.oblige(&Oblig{Name: u.Name + "#vacuity:requires-satisfiable", Kind: "vacuity", Fn: u.Name, Goal: tFalse, Props: ct.Props, Expect: "sat"})
+	// lemma instances requested by `use` clauses (over the entry state)
+	for _, us := range ct.Uses {
+		p.useLemma(e, ct, us, env0, tTrue)
+	}
 	// splits
 	p.makeSplits(e, ct, env0, u)
 	p.evalCarveOuts(e, env0, u)
@@ -171,12 +303,28 @@ func (p *Program) verifyUnit(ct *Contract) (u *Unit) {
 var splitRe = regexp.MustCompile(`^(.+?)\s+in\s+(-?\d+)\.\.(-?\d+)$`)
 
 func (p *Program) makeSplits(e *Exec, ct *Contract, env *SpecEnv, u *Unit) {
-	if len(ct.Splits) == 0 {
+	// splits over parameters / memory locations are handled by substitution (unitTasks); only
+	// other expressions are case-split by hypothesis here
+	pnames := map[string]bool{}
+	for n := range env.params {
+		pnames[n] = true
+	}
+	hyp := func(sp Split) bool { return !pnames[sp.Var] && !isLocationExpr(sp.Var) }
+	rest := 0
+	for _, sp := range ct.Splits {
+		if hyp(sp) {
+			rest++
+		}
+	}
+	if rest == 0 {
 		return
 	}
 	u.Splits = [][]Term{nil}
 	u.SplitNm = []string{""}
 	for _, sp := range ct.Splits {
+		if !hyp(sp) {
+			continue
+		}
 		x, err := parseSpecExpr(sp.Var)
 		if err != nil {
 			e.fail("split expression %q: %v", sp.Var, err)
@@ -185,7 +333,7 @@ func (p *Program) makeSplits(e *Exec, ct *Contract, env *SpecEnv, u *Unit) {
 		var ns [][]Term
 		var nn []string
 		for i, base := range u.Splits {
-			for k := sp.Lo; k <= sp.Hi; k++ {
+			for _, k := range sp.Vals {
 				eq := e.c.eq(v.T(), bvLitI(v.T().Sort.W, int64(k)))
 				ns = append(ns, append(append([]Term{}, base...), eq))
 				nn = append(nn, fmt.Sprintf("%s[%s=%d]", u.SplitNm[i], sp.Var, k))
@@ -284,13 +432,17 @@ func (p *Program) verifyLemma(e *Exec, ct *Contract, u *Unit) {
 	for _, prm := range ct.Params {
 		t := env0.lookupType(prm.Typ)
 		v := c.freshVal(t, "p_"+prm.Name)
+		if k, ok := e.subst[prm.Name]; ok {
+			v = scalar(t, bvLitI(scalarSort(t).W, k))
+		}
 		if _, ok := t.Underlying().(*types.Pointer); ok {
-			p.curRefs = append(p.curRefs, v.T())
+			e.refs = append(e.refs, v.T())
 			c.assume(c.not(c.eq(v.T(), tNil)), "pointer parameter non-nil")
 		}
 		params[prm.Name] = v
 	}
-	p.curEntry = &unitEntry{params: params, cells: entry, pkg: tp}
+	e.entry = &unitEntry{params: params, cells: entry, pkg: tp}
+	p.applyStateSubst(e, env0, entry)
 	for _, r := range ct.Requires {
 		c.assume(e.evalSpecBool(r, env0, nil, nil), "requires")
 	}
@@ -421,4 +573,78 @@ func (p *Program) evalCarveOuts(e *Exec, env0 *SpecEnv, u *Unit) {
 			u.Carve[k.CarveOut] = e.evalSpecBool(SpecExpr{Src: k.CarveOut, E: x, Line: "known_findings.json"}, env0, nil, nil)
 		}
 	}
+}
+
+// useLemma instantiates a lemma of the contract files: its requires (and the ranges over which
+// it was proved by case split) become obligations, its ensures assumptions.
+func (p *Program) useLemma(e *Exec, ct *Contract, src string, env *SpecEnv, reach Term) {
+	c := e.c
+	x, err := parser.ParseExpr(src)
+	if err != nil {
+		e.fail("use %q: %v", src, err)
+	}
+	call, ok := x.(*ast.CallExpr)
+	if !ok {
+		e.fail("use %q: not a lemma application", src)
+	}
+	name := exprString(call.Fun)
+	pkg := ct.Pkg
+	if i := strings.Index(name, "."); i >= 0 {
+		pkg, name = name[:i], name[i+1:]
+	}
+	lem := p.contracts[pkg+".lemma "+name]
+	if lem == nil {
+		e.fail("use: unknown lemma %s.%s", pkg, name)
+	}
+	if len(call.Args) != len(lem.Params) {
+		e.fail("use %s: %d arguments for %d parameters", name, len(call.Args), len(lem.Params))
+	}
+	// a lemma may be used only where it is also verified: same property tags
+	for _, pr := range ct.Props {
+		found := false
+		for _, lp := range lem.Props {
+			if lp == pr {
+				found = true
+			}
+		}
+		if !found {
+			e.fail("lemma %s is not tagged with property %s of its user %s", name, pr, ct.Key)
+		}
+	}
+	tp := p.pkgByName(lem.Pkg)
+	sub := &SpecEnv{e: e, pkg: tp, vars: map[string]Val{}, cells: env.cells, old: env.old}
+	for i, prm := range lem.Params {
+		t := sub.lookupType(prm.Typ)
+		v := env.typed(e.evalSpec(SpecExpr{Src: src, E: call.Args[i], Line: "use"}, env), t)
+		v.Typ = t
+		sub.vars[prm.Name] = v
+	}
+	// ranges of the lemma's case splits
+	for _, sp := range lem.Splits {
+		v, ok := sub.vars[sp.Var]
+		if !ok {
+			e.fail("lemma %s: split over %s which is not a parameter", name, sp.Var)
+		}
+		var alts []Term
+		for _, k := range sp.Vals {
+			alts = append(alts, c.eq(v.T(), bvLitI(v.T().Sort.W, int64(k))))
+		}
+		g := c.or(alts...)
+		e.oblige("requires@lemma "+name, "range-"+sp.Var, reach, g, token.NoPos)
+	}
+	for i, r := range lem.Requires {
+		g := e.evalSpecBool(r, sub, nil, nil)
+		label := r.Label
+		if label == "" {
+			label = fmt.Sprint(i)
+		}
+		e.oblige("requires@lemma "+name, label, reach, g, token.NoPos)
+	}
+	for _, en := range lem.Ensures {
+		g := e.evalSpecBool(en, sub, nil, nil)
+		c.assume(c.implies(reach, g), "lemma "+name)
+	}
+	p.mu.Lock()
+	p.usedContracts[pkg+".lemma "+name] = true
+	p.mu.Unlock()
 }
